@@ -1,6 +1,7 @@
 package main
 
 import (
+	"bytes"
 	"fmt"
 	"math/rand"
 	"os"
@@ -60,8 +61,11 @@ type c04Spec struct {
 	Idx     int        `json:"idx"`
 	Crashes []c04Crash `json:"crashes"` // first one during the workload, later ones during restarts
 	Seed    int64      `json:"seed"`
-	Strace  string     `json:"strace,omitempty"` // syscall-level injector instead of a hook (thorough)
-	StraceN int        `json:"strace_n,omitempty"`
+	// CutAtRestartMs: the link to the remote node is down while the daemon restarts and for this long afterwards
+	// (the first attempts to reach the remote node fail); the remote units must be followed all the same
+	CutAtRestartMs int    `json:"cut_at_restart_ms,omitempty"`
+	Strace         string `json:"strace,omitempty"` // syscall-level injector instead of a hook (thorough)
+	StraceN        int    `json:"strace_n,omitempty"`
 }
 
 func c04Units(rng *rand.Rand) []*c04Unit {
@@ -91,16 +95,16 @@ func c04Units(rng *rand.Rand) []*c04Unit {
 }
 
 type c04Trial struct {
-	sp      *c04Spec
-	dir     string
-	L, R    *ctl.Daemon
-	px      *ctl.Proxy
-	units   []*c04Unit
-	run     *ev.Run
-	ptLog   string
-	killed  []pointHit // kill actions actually performed
-	notes   []string
-	stopDrv chan struct{}
+	sp                 *c04Spec
+	dir                string
+	L, R               *ctl.Daemon
+	px                 *ctl.Proxy
+	units              []*c04Unit
+	run                *ev.Run
+	ptLog              string
+	killed             []pointHit // kill actions actually performed
+	notes              []string
+	stopDrv            chan struct{}
 	straceKilledDaemon atomic.Bool
 }
 
@@ -285,7 +289,9 @@ func (t *c04Trial) execute() {
 	defer px.Close()
 	t.L = ctl.NewDaemon(ctl.Cfg{ID: "l", Dir: filepath.Join(t.dir, "l"), Peers: []string{px.Addr}, Work: genw})
 	defer func() { t.L.Kill(); ctl.KillStrays(t.dir) }()
-	defer func() { _ = os.WriteFile(filepath.Join(t.dir, "notes.txt"), []byte(strings.Join(t.notes, "\n")+"\n"), 0o644) }()
+	defer func() {
+		_ = os.WriteFile(filepath.Join(t.dir, "notes.txt"), []byte(strings.Join(t.notes, "\n")+"\n"), 0o644)
+	}()
 
 	first := sp.Crashes[0]
 	var startErr error
@@ -375,6 +381,14 @@ func (t *c04Trial) execute() {
 			run.Count("strace_trials_in_which_the_daemon_was_killed", 1)
 		}
 	}
+	if sp.CutAtRestartMs > 0 {
+		t.px.Cut()
+		run.Count("restarts_with_the_remote_node_unreachable", 1)
+		go func() {
+			time.Sleep(time.Duration(sp.CutAtRestartMs) * time.Millisecond)
+			t.px.Heal()
+		}()
+	}
 	if err := t.startL(nil); err != nil {
 		fatal, top, _ := t.L.Fatal()
 		if fatal != "" {
@@ -385,7 +399,7 @@ func (t *c04Trial) execute() {
 		run.Inconclusive(fmt.Sprintf("C04 trial %d: clean restart failed: %v", sp.Idx, err))
 		return
 	}
-	if !waitRoute(t.L, []string{"r"}, 40*time.Second) {
+	if !waitRoute(t.L, []string{"r"}, 40*time.Second+time.Duration(3*sp.CutAtRestartMs)*time.Millisecond) {
 		run.Inconclusive(fmt.Sprintf("C04 trial %d: mesh did not re-form after restart", sp.Idx))
 		return
 	}
@@ -553,6 +567,49 @@ func (t *c04Trial) execute() {
 			}
 		}
 	}
+	// ---- remote binding seen from the remote node: a unit on r that had already received input from l belongs to
+	// the local unit with that input, and that local unit must still name it after the restart. (In the unchanged
+	// code the remote unit's id is recorded before the first byte of input is sent; the only instant at which a
+	// kill can lose it is between the remote node's acknowledgement and that write, when no input has been sent.)
+	if ents, err := os.ReadDir(t.R.DataDir()); err == nil {
+		for _, e := range ents {
+			if !e.IsDir() {
+				continue
+			}
+			rin, err := os.ReadFile(filepath.Join(t.R.DataDir(), e.Name(), "stdin"))
+			if err != nil || len(rin) == 0 {
+				continue
+			}
+			matches := 0
+			for _, u := range acked {
+				if pl := mustJSON(u.Spec); u.Remote && len(rin) <= len(pl) && bytes.Equal(pl[:len(rin)], rin) {
+					matches++
+				}
+			}
+			if matches != 1 {
+				continue // a short prefix shared by several inputs identifies nobody
+			}
+			for _, u := range acked {
+				if !u.Remote {
+					continue
+				}
+				pl := mustJSON(u.Spec)
+				if len(rin) > len(pl) || !bytes.Equal(pl[:len(rin)], rin) {
+					continue
+				}
+				run.Count("remote_units_matched_to_local_units_by_input", 1)
+				st := list[u.ID]
+				if st == nil {
+					break
+				}
+				ru, _ := st.ExtraData["RemoteUnitID"].(string)
+				if ru != e.Name() {
+					t.violation("remote-binding:lost-after-input-transfer", u, fmt.Sprintf("remote unit %s on r holds %d bytes of the input of local unit %s (%s), but after the restart the local unit names remote unit %q", e.Name(), len(rin), u.ID, u.Label, ru), nil)
+				}
+				break
+			}
+		}
+	}
 	run.Eval(1)
 	sort.Strings(kinds)
 	for _, k := range t.killed {
@@ -679,6 +736,10 @@ func runC04(tier string, args []string) {
 			c = append(c, rpts[rng.Intn(len(rpts))])
 		}
 		add(c...)
+	}
+	// the remote node is unreachable while the daemon restarts (kill at the end of the script, remote units running)
+	for i := 0; i < run.Pick(2, 8); i++ {
+		specs = append(specs, &c04Spec{Idx: len(specs), Crashes: []c04Crash{{Role: "daemon", Point: []string{"end", "remote.status_mirror"}[i%2], K: 1 + i}}, Seed: rng.Int63(), CutAtRestartMs: 20000 + 3000*i})
 	}
 	// syscall-level kills (no hook needed): ftruncate = inside a status rewrite, mkdirat = unit creation,
 	// unlinkat = release, openat / write = anywhere between two file-system steps
